@@ -81,27 +81,32 @@ func (tree *MutableTree) GetLatestVersion() (int64, error) {
 
 // VersionExists returns whether or not a version exists.
 func (tree *MutableTree) VersionExists(version int64) bool {
+	exists, err := tree.versionExists(version)
+	return err == nil && exists
+}
+
+// versionExists is VersionExists for callers that can report a storage failure.
+func (tree *MutableTree) versionExists(version int64) (bool, error) {
 	legacyLatestVersion, err := tree.ndb.getLegacyLatestVersion()
 	if err != nil {
-		return false
+		return false, err
 	}
 	if version <= legacyLatestVersion {
-		has, err := tree.ndb.hasLegacyVersion(version)
-		return err == nil && has
+		return tree.ndb.hasLegacyVersion(version)
 	}
 	firstVersion, err := tree.ndb.getFirstVersion()
 	if err != nil {
-		return false
+		return false, err
 	}
 	found, latestVersion, err := tree.ndb.getLatestVersion()
 	if err != nil {
-		return false
+		return false, err
 	}
 	if !found {
-		return false
+		return false, nil
 	}
 
-	return firstVersion <= version && version <= latestVersion
+	return firstVersion <= version && version <= latestVersion, nil
 }
 
 // AvailableVersions returns all available versions in ascending order
@@ -693,7 +698,12 @@ func (tree *MutableTree) Rollback() {
 // GetVersioned gets the value at the specified key and version. The returned value must not be
 // modified, since it may point to data stored within IAVL.
 func (tree *MutableTree) GetVersioned(key []byte, version int64) ([]byte, error) {
-	if tree.VersionExists(version) {
+	exists, err := tree.versionExists(version)
+	if err != nil {
+		// a failed lookup is not an absent version
+		return nil, err
+	}
+	if exists {
 		if !tree.skipFastStorageUpgrade {
 			isFastCacheEnabled, err := tree.IsFastCacheEnabled()
 			if err != nil {
@@ -743,7 +753,12 @@ func (tree *MutableTree) SaveVersion() ([]byte, int64, error) {
 	version := tree.WorkingVersion()
 	tree.initialVersionSet = false
 
-	if tree.VersionExists(version) {
+	exists, err := tree.versionExists(version)
+	if err != nil {
+		// a failed lookup is not an absent version: nothing may be overwritten
+		return nil, version, err
+	}
+	if exists {
 		// If the version already exists, return an error as we're attempting to overwrite.
 		// However, the same hash means idempotent (i.e. no-op).
 		existingNodeKey, err := tree.ndb.GetRoot(version)
